@@ -464,6 +464,106 @@ example :
   simp [IC, ICL]
   decide
 
+/-! ## generated content: strings and quotes (`compute_content_list`) -/
+
+/-- Content lists are processed item by item: the text and the quote depth reached after a prefix are
+the starting point of the rest. -/
+theorem content_append (q : Quotes) (l1 l2 : List CItem) (acc : Text) (d : Nat) :
+    contentText q (l1 ++ l2) acc d =
+      match contentText q l1 acc d with
+      | .error e => .error e
+      | .ok (a, d') => contentText q l2 a d' := by
+  induction l1 generalizing acc d with
+  | nil => simp [contentText]
+  | cons c cs ih =>
+    cases c with
+    | str t => simp only [List.cons_append, contentText]; exact ih _ _
+    | quote o i =>
+      simp only [List.cons_append, contentText]
+      split
+      · rfl
+      · exact ih _ _
+
+/-- A list of strings yields their concatenation and leaves the quote depth alone. -/
+theorem content_strings (q : Quotes) (ts : List Text) (acc : Text) (d : Nat) :
+    contentText q (ts.map .str) acc d = .ok (acc ++ ts.flatten, d) := by
+  induction ts generalizing acc with
+  | nil => simp [contentText]
+  | cons t ts ih => simp [contentText, ih, List.append_assoc]
+
+/-- `no-open-quote` / `no-close-quote`, and every quote keyword under `quotes: none`, insert nothing
+and only move the depth (never below zero). -/
+theorem content_silent_quote (q : Quotes) (isOpen insert : Bool) (rest : List CItem) (acc : Text) (d : Nat)
+    (h : insert = false ∨ q = .none) :
+    contentText q (.quote isOpen insert :: rest) acc d =
+      contentText q rest acc (if isOpen then d + 1 else d - 1) := by
+  have hq : quoteText q isOpen insert (if (!isOpen) = true then d - 1 else d) = .ok [] := by
+    rcases h with rfl | rfl
+    · cases q <;> rfl
+    · rfl
+  simp only [contentText, hq, List.append_nil]
+  cases isOpen <;> simp
+
+/-- An `open-quote` at depth `d` inserts the opening mark of level `min d (last level)` and goes one
+level deeper; the `close-quote` met at depth `d + 1` inserts the closing mark of that same level and
+returns to depth `d`: marks are paired level by level, whatever lies in between is processed at depth
+`d + 1`. -/
+theorem content_quote_pair (opens closes : List Text) (acc : Text) (d : Nat) (o c : Text)
+    (ho : opens[min d (opens.length - 1)]? = some o) (hc : closes[min d (closes.length - 1)]? = some c)
+    (inner rest : List CItem) (a1 : Text)
+    (hin : contentText (.pairs opens closes) inner (acc ++ o) (d + 1) = .ok (a1, d + 1)) :
+    contentText (.pairs opens closes) (.quote true true :: inner ++ .quote false true :: rest) acc d =
+      contentText (.pairs opens closes) rest (a1 ++ c) d := by
+  have step1 : contentText (.pairs opens closes) (.quote true true :: (inner ++ .quote false true :: rest)) acc d =
+      contentText (.pairs opens closes) (inner ++ .quote false true :: rest) (acc ++ o) (d + 1) := by
+    simp [contentText, quoteText, quoteAt, ho]
+  rw [List.cons_append, step1, content_append, hin]
+  simp [contentText, quoteText, quoteAt, hc]
+
+/-- With `quotes: auto`, `none`, or at least one pair of marks, no content list of strings and quote
+keywords can fail (no IndexError). -/
+theorem content_total (q : Quotes) (hq : match q with | .pairs o c => o ≠ [] ∧ c ≠ [] | _ => True)
+    (l : List CItem) (acc : Text) (d : Nat) : ∃ r, contentText q l acc d = .ok r := by
+  have hne : ∀ (qs : List Text), qs ≠ [] → ∀ k, ∃ t, quoteAt qs k = .ok t := by
+    intro qs hqs k
+    unfold quoteAt
+    have : min k (qs.length - 1) < qs.length := by
+      have : 0 < qs.length := List.length_pos_iff.mpr hqs
+      omega
+    rw [List.getElem?_eq_getElem this]
+    exact ⟨_, rfl⟩
+  have hqt : ∀ o i k, ∃ t, quoteText q o i k = .ok t := by
+    intro o i k
+    cases q with
+    | none => exact ⟨_, rfl⟩
+    | auto =>
+      cases i
+      · exact ⟨_, rfl⟩
+      · cases o
+        · exact hne Gen.autoQuotes.2 (by decide) k
+        · exact hne Gen.autoQuotes.1 (by decide) k
+    | pairs op cl =>
+      cases i
+      · exact ⟨_, rfl⟩
+      · cases o
+        · exact hne cl hq.2 k
+        · exact hne op hq.1 k
+  induction l generalizing acc d with
+  | nil => exact ⟨_, rfl⟩
+  | cons c cs ih =>
+    cases c with
+    | str t => simp only [contentText]; exact ih _ _
+    | quote o i =>
+      simp only [contentText]
+      obtain ⟨t, ht⟩ := hqt o i (if (!o) = true then d - 1 else d)
+      rw [ht]
+      exact ih _ _
+
+/-- `« a ‹ b › c »` from `open-quote "a" open-quote "b" close-quote "c" close-quote` with two levels of marks. -/
+example : contentText (.pairs [[171], [8249]] [[187], [8250]])
+    [.quote true true, .str [97], .quote true true, .str [98], .quote false true, .str [99], .quote false true] [] 0 =
+    .ok ([171, 97, 8249, 98, 8250, 99, 187], 0) := by rfl
+
 /-! ## `text-transform: capitalize` -/
 
 private theorem ucat_beq (a b : UCat) : (a == b) = decide (a = b) := by
@@ -559,9 +659,9 @@ private theorem atb_unfold (b b' : KBox) (hrun : b.st.run = false) (hp : b.isA .
   split at h
   · cases h
   · rename_i children _
-    exact ⟨children, 8 * children.length + 62, by
-      have : tableFuel children.length = 8 * children.length + 62 + 2 := by unfold tableFuel; omega
-      rw [← this]; exact h⟩
+    refine ⟨children, 8 * (children.length + groupSpan (.mk k st el inst text kids cols)) + 62, ?_⟩
+    have : ∀ m, tableFuel m = 8 * m + 62 + 2 := by intro m; unfold tableFuel; omega
+    rw [← this]; exact h
 
 /-- Every table box ends up as `wrapper ⊃ top captions, table, bottom captions`; the table's children
 are row groups, its `column_groups` column groups; the wrapper is an inline-block for an inline table
